@@ -95,11 +95,17 @@ def generate(rng, tier):
     return gen_progs(rng, tier)
 
 
+def body_of(line):
+    """results and final state without the sequence of lock acquisitions"""
+    return line.split(" :: ", 1)[1] if " :: " in line else line
+
+
 def run_and_compare(progs, tier):
     explored = conclib.explore(progs, "c16")
     model, nreplayed = conclib.replay_model(progs, explored, "c16")
     by = {p.name: p for p in progs}
     dis = []
+    failing, broken = {}, {}
     nruns = 0
     exhaustive = 0
     distinct = set()
@@ -118,14 +124,29 @@ def run_and_compare(progs, tier):
             elif conclib.abstract(rest) not in seqs:
                 bad = "not linearizable: results/final state %s are not those of any sequential order" % conclib.abstract(rest)[:300]
             distinct.add(conclib.abstract(rest))
-            if bad and not any(x["case"] == name for x in dis):
-                dis.append({"case": name, "case_text": p.text(schedule=sch), "step": None, "op": "schedule " + sch,
-                            "model": model.get((name, sch)), "impl": rest, "violates": True, "note": bad})
+            if bad and name not in failing:
+                failing[name] = {"case": name, "case_text": p.text(schedule=sch), "step": None, "op": "schedule " + sch,
+                                 "model": model.get((name, sch)), "impl": rest, "violates": True, "note": bad}
             m = model.get((name, sch))
-            if m is not None and m != rest and not any(x["case"] == name for x in dis):
-                dis.append({"case": name, "case_text": p.text(schedule=sch), "step": None, "op": "schedule " + sch,
-                            "model": m, "impl": rest, "violates": True,
-                            "note": "implementation and interleaved model differ under the same schedule (labels, results or final state)"})
+            if m is not None and m != rest and (name not in broken or not broken[name]["violates"]):
+                # the tie to the model no longer checks for this program.  Results or final state that differ from the proved
+                # model are a failing input; a different sequence of lock acquisitions alone is not - whether the property
+                # fails is then decided by the oracle above over ALL explored schedules of the program
+                differs = body_of(m) != body_of(rest)
+                if differs or name not in broken:
+                    broken[name] = {"case": name, "case_text": p.text(schedule=sch), "step": None, "op": "schedule " + sch,
+                                    "model": m, "impl": rest, "violates": differs,
+                                    "note": ("results or final state differ from the proved interleaved model under this schedule"
+                                             if differs else
+                                             "correspondence: the sequence of lock acquisitions differs from the model's under the "
+                                             "same schedule; no schedule of this program that is not linearizable, deadlocks or "
+                                             "panics was found")}
+    for name in by:
+        if name in failing:
+            dis.append(failing[name])
+        elif name in broken:
+            dis.append(broken[name])
+    dis.sort(key=lambda x: not x["violates"])
     stats = {"evaluations": nruns, "distinct_nontrivial": len(distinct),
              "samples": [{"program": progs[0].text(), "schedules_explored": len(explored.get(progs[0].name, {}).get("runs", []))}],
              "distribution": {"programs": len(progs), "programs_exhaustively_explored": exhaustive,
